@@ -155,9 +155,15 @@ func c06(args []string) error {
 						cmd.Stdout = &stdout
 						runErr := cmd.Run()
 						os.RemoveAll(tmpd)
+						// when the library call fails the command fails too (and prints nothing to compare: the partly
+						// complemented rows of the library are not observable through the command)
+						libErr := mkSeqBag(alpha, pn, ps).ReverseComplementSequences(req...)
+						if libErr != nil && runErr != nil {
+							continue
+						}
 						emit(alpha, pn, ps, "cli:revcomp", "(OpRCNames "+coqStrList(req)+")", func(sb align.SeqBag) (align.SeqBag, error) {
-							if runErr != nil {
-								return sb, runErr
+							if runErr != nil || libErr != nil {
+								return mkSeqBag(alpha, []string{"<goalign " + strings.Join(args, " ") + ": the command and the library disagree on failing>"}, []string{"A"}), nil
 							}
 							out, pe := fasta.NewParser(bytes.NewReader(stdout.Bytes())).ParseUnalign()
 							if pe != nil {
